@@ -127,9 +127,17 @@ def intRulesWF (fmt : IntFormat) (r : IntRules) : Bool :=
 def enumRulesWF (decl : EnumDecl) (r : EnumRules) : Bool :=
   r.inn.all (fun n => (decl.numberOf n).isSome) && r.notIn.all (fun n => (decl.numberOf n).isSome)
 
+/-- the default filters of an enum field's list rules name options of the enum (the compiler
+rejects the declaration otherwise; same spellings as in / notIn) -/
+def enumFiltersWF (decl : EnumDecl) (lr : ListRules) : Bool :=
+  (lrDefaultFilters lr).all (fun n => (decl.numberOf n).isSome)
+
 def schemaWF : Schema → Bool
   | .integer fmt (some r) _ => intRulesWF fmt r
-  | .enum decl (some r) _ => enumRulesWF decl r
+  | .enum decl rules lr =>
+    (match rules with
+     | some r => enumRulesWF decl r
+     | none => true) && enumFiltersWF decl lr
   | _ => true
 
 /-- The declarations C12 quantifies over. -/
